@@ -426,6 +426,21 @@ func c09LastFrame(p *Program, r *Report) {
 				}
 			}
 		}
+		typeKnown := isRows
+		for k := range o.St.exclude {
+			if strings.HasSuffix(k, "GetResultType()") {
+				typeKnown = true
+			}
+		}
+		for k := range o.St.refine {
+			if strings.HasSuffix(k, "GetResultType()") {
+				typeKnown = true
+			}
+		}
+		if isResult && !typeKnown {
+			r.Fail("last-frame", fmt.Sprintf("isLastFrame {%s}", describeAtoms(o.St)), fn.Pos(), "a RESULT frame is classified (%v) without looking at its result kind: Rows pages of a continuous-paging response would be taken for final frames", o.Ret[0])
+			continue
+		}
 		if isResult && isRows && !contKnown {
 			r.Fail("last-frame", fmt.Sprintf("isLastFrame {%s}", describeAtoms(o.St)), fn.Pos(), "a RESULT Rows frame is classified (%v) without looking at its continuous-paging flag: pages of a multi-page response would complete the request early", o.Ret[0])
 			continue
